@@ -58,6 +58,14 @@ def plan(tier, seed, kf_ids):
                 ks = ks[:1] + ks[2:3] if f not in (w // 2,) else ks
             for (k, neg) in ks:
                 jobs.append(A.div_pow2("c02", s, w, f, k, neg, timeout=1200))
+    # 64/128-bit multiplication: every a against constant power-of-two factors (the full 128-bit product is Engine M's / the families')
+    for s, w in c.FAMILIES:
+        if w < 64:
+            continue
+        for f in ([1, w // 2, w - 1, w] if q else [0, 1, 2, w // 2, w - 2, w - 1, w]):
+            # (a negative factor other than the minimum has a dense bit pattern: -1 ulp did not finish in 9 min)
+            for (k, neg) in [(0, False), (w // 2, False)] + ([(w - 2, False), (w - 1, True)] if s == "I" else [(w - 1, False)]):
+                jobs.append(A.mul_pow2("c02", s, w, f, k, neg, timeout=900))
     return {
         "feature": "c02",
         "jobs": jobs,
